@@ -447,10 +447,15 @@ func (t *Tr) analyse(f *Fn, body *ast.BlockStmt, info *types.Info) {
 			f.aliases[v] = rhsOf[v]
 		}
 	}
+	var flagVars []*types.Var
 	for v := range assigns {
 		if isBool(v) && defined[v] && !nonConst[v] && !inLoopAssign[v] && !escapes[v] && pureTest[v] {
-			f.flagOf[v] = t.flags.id(f.Name + ":" + v.Name())
+			flagVars = append(flagVars, v)
 		}
+	}
+	sort.Slice(flagVars, func(i, j int) bool { return flagVars[i].Pos() < flagVars[j].Pos() }) // deterministic ids
+	for _, v := range flagVars {
+		f.flagOf[v] = t.flags.id(fmt.Sprintf("%s:%s@%d", f.Name, v.Name(), t.line(v.Pos())))
 	}
 }
 
